@@ -135,7 +135,7 @@ def check_c11(prop, tier):
         hs = []
         n = 200 if tier == "quick" else 5000
         for i in range(n):
-            build = scen.seq_history(rng, rng.range(4, 18), nids=rng.choice([3, 5]), monotone_ts=(i % 2 == 0), zero_ok=(i % 4 == 0), reads=False)
+            build = scen.seq_history(rng, rng.range(4, 18), nids=rng.choice([3, 5]), monotone_ts=(i % 2 == 0), zero_ok=(i % 2 == 1), reads=False)
             cont = scen.seq_history(rng, rng.range(3, 14), nids=5, monotone_ts=True, zero_ok=False, reads=(i % 3 == 0))
             hs.append(scen.seq_scenario(build + [{"op": "fork", "via": rng.choice(PATHS)}] + cont, budget=6000))
         h = run_harness("level", hs, work, "tv", timeout=3000)
